@@ -25,6 +25,9 @@ def main(argv=None) -> int:
     if a.id == "selftest":
         from . import selftest
         return selftest.main(a.rest)
+    if a.id == "vacuity":
+        from . import vacuity
+        return vacuity.main()
     if a.id == "setup":
         from . import setup
         return setup.main()
